@@ -324,6 +324,9 @@ func (e *Env) arith(op string, a, b TV) TV {
 	}
 	switch op {
 	case "+", "-", "*":
+		if op == "*" {
+			op = mulOp(a.T, b.T)
+		}
 		return TV{App(op, SInt, a.T, b.T), typ}
 	case "/":
 		return TV{App("div", SInt, a.T, b.T), typ}
